@@ -549,14 +549,15 @@ def tearfree_sketchy(ctx):
 
 def tearfree_graft(ctx):
   m = ctx.model
-  fi = m.func('tearfree.grafting', '_graft_with.update_fn.maybe_graft')
-  ctx.analysed(fi)
-  d = Decider(calls={('_masked',): False})
-  ev = evaluator(m, decide=d, opaque={'_masked'})
-  r = ev.run(fi)
+  from . import C05
+
+  class fi:          # findings keep the historical function label; the per-leaf rule is found by role (C05.graft_leaf)
+    short = C05.GRAFT_FN
+  fu_, ev, r, _ = C05.graft_leaf(m, masked=False)
+  ctx.analysed(fu_)
   sa = select_arms(r)
   ok = sa is not None and sa[0] == 'where'
-  ctx.ob('C04.K5', fi.short, 'warm-up select', ok, 'maybe_graft must select between the grafted direction and the graft update', ctx.loc(fi),
+  ctx.ob('C04.K5', fi.short, 'warm-up select', ok, 'maybe_graft must select between the grafted direction and the graft update', ctx.loc(fu_),
          sample='where(count >= start, base * multiplier, graft_upd)')
   if not ok:
     return
@@ -565,11 +566,11 @@ def tearfree_graft(ctx):
   oc = cmp_oriented(strip_casts(sa[1]), lambda t: (path_str(strip_casts(t)) or '').endswith('options.start_preconditioning_step'))
   ok = oc is not None and oc[0] == '>=' and path_str(strip_casts(oc[1])) == 'state.count'
   ctx.ob('C04.K5', fi.short, 'warm-up comparator', ok,
-         f'warm-up switch must be state.count >= options.start_preconditioning_step; got `{cmpr.fmt(sa[1])}`', ctx.loc(fi),
+         f'warm-up switch must be state.count >= options.start_preconditioning_step; got `{cmpr.fmt(sa[1])}`', ctx.loc(fu_),
          sample='state.count >= start_preconditioning_step')
   t_dep, f_dep = dep_names(sa[2]), dep_names(sa[3])
   ctx.ob('C04.K5', fi.short, 'warm-up polarity', 'base' in t_dep and f_dep == {'graft_upd'},
-         'from the start step on the preconditioned direction (base) must be used; before it the graft update itself', ctx.loc(fi),
+         'from the start step on the preconditioned direction (base) must be used; before it the graft update itself', ctx.loc(fu_),
          sample='true arm = base * multiplier, false arm = graft_upd')
 
 
